@@ -65,6 +65,8 @@ def _worker_body(pid, tier, wseed, n_examples, part):
             res["excluded"][k] += v
         for lab in out.get("labels", []):
             res["labels"][lab] += 1
+        for k, v in (out.get("counters") or {}).items():
+            res["labels"][k] += v
         if out["status"] == "invalid":
             res["invalid"] += 1
             if res["first_invalid"] is None:
